@@ -343,6 +343,20 @@ impl GenState {
                 }
             }
         };
+        // sometimes an item "inside" an existing key: package = <a defined or imported key>
+        let (pkg, name) = if rng.pct(6) && (!defined.is_empty() || !imported.is_empty()) {
+            let outer = if !defined.is_empty() && rng.pct(60) {
+                let (p, n) = rng.pick(&defined).clone();
+                format!("{p}.{n}")
+            } else if !imported.is_empty() {
+                rng.pick(&imported).clone()
+            } else {
+                pkg.clone()
+            };
+            (outer, rng.pick(&self.u.names).clone())
+        } else {
+            (pkg, name)
+        };
         let kind = *rng.pick(&Kind::ALL);
         let serial = self.next_serial();
         let mut d = gen::gen_doc(rng, &self.u, &self.gk, &pkg, &name, kind, serial);
@@ -669,7 +683,7 @@ pub fn generate(rng: &mut Rng, prop: Prop, thorough: bool) -> (HistScenario, Str
     let w_warmup = *rng.pick(&[0u32, 0, 0, 4]);
     let mut past: Vec<(String, Content)> = Vec::new();
     let coarse_ids = prop == Prop::C12 && rng.pct(12);
-    let files_enabled = !coarse_ids && (prop == Prop::C12 && rng.pct(75) || prop == Prop::C13 && rng.pct(30));
+    let files_enabled = !coarse_ids && (prop == Prop::C12 && rng.pct(75) || prop == Prop::C13 && rng.pct(50));
     let w_disk = if files_enabled { *rng.pick(&[10u32, 20]) } else { 0 };
     let w_add_file = if files_enabled { *rng.pick(&[15u32, 30, 45]) } else { 0 };
     let p_fault = *rng.pick(&[0u32, 30, 50, 70]);
@@ -678,7 +692,7 @@ pub fn generate(rng: &mut Rng, prop: Prop, thorough: bool) -> (HistScenario, Str
         *e = rng.pct(65);
     }
     let passthrough_run = files_enabled && rng.pct(if thorough { 8 } else { 5 });
-    let p_layout: u32 = if passthrough_run { 80 } else { *rng.pick(&[0u32, 0, 30]) };
+    let p_layout: u32 = if passthrough_run { 80 } else { *rng.pick(&[0u32, 30, 60]) };
     let mut st = GenState {
         u,
         gk,
